@@ -14,7 +14,6 @@ import (
 	"io"
 	"os"
 	"path/filepath"
-	"sort"
 	"strconv"
 	"syscall"
 	"time"
@@ -88,6 +87,10 @@ type node struct {
 	// sequences in the manifest), before the replicator's callback acknowledges the WAL.
 	midFlush func()
 	closed   bool
+
+	// consumer group positions as found in the directory (before NewLocalReplicator acknowledges
+	// the persisted sequence and rewinds)
+	imageAck, imageConsumed int64
 }
 
 func setConfig(root string) {
@@ -149,6 +152,14 @@ func openNode(root string, famTime int64) (n *node, err error) {
 	existed := statErr == nil
 	if n.fq, err = queue.NewFanOutQueue(dir, 128*1024*1024); err != nil {
 		return nil, err
+	}
+	n.imageAck, n.imageConsumed = -1, -1
+	if existed && len(n.fq.ConsumerGroupNames()) > 0 {
+		g, gerr := n.fq.GetOrCreateConsumerGroup(strconv.Itoa(int(leader)))
+		if gerr != nil {
+			return nil, gerr
+		}
+		n.imageAck, n.imageConsumed = g.AcknowledgedSeq(), g.ConsumedSeq()
 	}
 	ctx, cancel := context.WithCancel(context.Background())
 	n.cancel = cancel
@@ -564,13 +575,4 @@ func copySparse(src, dst string, size int64) error {
 		off = he
 	}
 	return nil
-}
-
-func sortedInts(m map[int]struct{}) []int {
-	var r []int
-	for k := range m {
-		r = append(r, k)
-	}
-	sort.Ints(r)
-	return r
 }
